@@ -127,6 +127,17 @@ Proof.
   destruct (ensure_newline_cases s) as [[_ H]|[_ H]]; auto.
 Qed.
 
+(* every reference text is appended once: compare() lists each entity once in
+   skips (since /repo b431102, checked by the harness on every case), the
+   localization has no duplicate keys and the missing keys are not in it, so
+   the keys whose reference texts are appended are pairwise different *)
+Theorem C04_appended_once : forall (skips sorted : list skip) (missing : list K),
+  NoDup (map sk_key skips) -> NoDup missing ->
+  (forall k, In k missing -> ~ In k (map sk_key skips)) ->
+  sort_skips skips = Ok sorted ->
+  NoDup (missing ++ map sk_key (non_junk sorted)).
+Proof. exact appended_keys_nodup. Qed.
+
 (* ---- the only way merge raises ------------------------------------------- *)
 (* the sort raises exactly when it has to compare a missing span start *)
 Theorem C04_sort_total : forall skips : list skip,
@@ -253,18 +264,6 @@ Theorem C04_android_two_skips_refuted :
   merge str_eqb true caps_android contents skips missing refs = Raise TypeError.
 Proof. exact android_two_skips_raise. Qed.
 
-(* an entity with two error-level check results is listed twice in skips and
-   its reference text is appended twice (a duplicate key in the staged file) *)
-Theorem C04_twice_refuted :
-  exists contents (sk : skip (K := str)) refs w,
-    ref_all str_eqb refs (sk_key sk) = Ok w /\
-    merge str_eqb true caps_dtd contents [sk; sk] [] refs
-    = Ok (Write ([10%N] ++ [10%N] ++ ensure_newline w ++ ensure_newline w)).
-Proof.
-  exists dtd_l10n, (mkskip (Some 0, Some 16) key_w false), [(key_w, dtd_ref_w)], dtd_ref_w.
-  vm_compute. split; reflexivity.
-Qed.
-
 (* ---- the premises hold of concrete values ------------------------------------ *)
 (* a = x ; junk ; b = y   with the junk line and the entity b skipped (given out of
    order): placed, apart, and the body is "a=x\n" *)
@@ -304,6 +303,22 @@ Example C04_reparse_premises_example :
   merge str_eqb true caps_properties (l10n_text bs) (block_skips 0 bs) [] [([98%N], [98;61;37;83]%N)]
   = Ok (Write (concat (kept_texts bs ++ [[10%N]] ++ map ensure_newline [[98;61;37;83]%N]))).
 Proof. vm_compute. split; reflexivity. Qed.
+
+(* the premise of C04_appended_once matters: merge appends once per entry of
+   skips, so an entity listed twice (as compare() did before b431102) has its
+   reference text appended twice *)
+Example C04_appended_once_premise_example :
+  let sk := mkskip (Some 0, Some 16) key_w false in
+  merge str_eqb true caps_dtd dtd_l10n [sk; sk] [] [(key_w, dtd_ref_w)]
+  = Ok (Write ([10%N] ++ [10%N] ++ ensure_newline dtd_ref_w ++ ensure_newline dtd_ref_w)) /\
+  merge str_eqb true caps_dtd dtd_l10n [sk] [] [(key_w, dtd_ref_w)]
+  = Ok (Write ([10%N] ++ [10%N] ++ ensure_newline dtd_ref_w)) /\
+  NoDup (map sk_key [sk]) /\ ~ NoDup (map sk_key [sk; sk]).
+Proof.
+  cbv zeta. split; [vm_compute; reflexivity|]. split; [vm_compute; reflexivity|].
+  split; [repeat constructor; intros []|].
+  intro H. inversion H as [|? ? Hn _]. apply Hn. now left.
+Qed.
 
 Example C04_skip_only_example :
   merge str_eqb true caps_ftl [97;10;98;10]%N [mkskip (Some 2, Some 3) [98%N] false] [[99%N]] []
